@@ -648,19 +648,20 @@ where
                         }
                         Ok(None) => {
                             if end_of_message {
-                                let eof_result = recognizer.decode_eof(src)?;
+                                let eof_result = recognizer.decode_eof(src);
+                                // The whole body is in the buffer: whatever the outcome, give the
+                                // bytes after it back and drop what is left of the body itself.
                                 let final_remaining = src.remaining();
-                                let consumed = new_remaining - final_remaining;
-                                *remaining -= consumed;
                                 src.unsplit(rem);
-                                let result = if let Some(result) = eof_result {
-                                    Ok(Some(RequestMessage {
+                                src.advance(final_remaining);
+                                let result = match eof_result {
+                                    Ok(Some(result)) => Ok(Some(RequestMessage {
                                         origin: *source,
                                         path: std::mem::take(path),
                                         envelope: Operation::Command(result),
-                                    }))
-                                } else {
-                                    Err(MessageDecodeError::incomplete())
+                                    })),
+                                    Ok(None) => Err(MessageDecodeError::incomplete()),
+                                    Err(e) => Err(e.into()),
                                 };
                                 *state = RequestState::ReadingHeader;
                                 break result;
